@@ -5,12 +5,16 @@
 //!
 //! Program text (one token, no blanks):
 //!   e7 effect | g0 get value lane & record | c01+5 get v0 and_then set v1 := v+5 | s0=5 set | u0.1=5 map update |
-//!   r0.1 remove | x0 clear | q0.1 get entry & record | F(a,b) followed_by | A(a,b) and_then | Q[a,b,..] Sequentially |
+//!   r0.1 remove | x0 clear | q0.1 get entry & record | y0.1 with_entry & record |
+//!   t0.1i5 / t0.1d / t0.1b5 / t0.1f5 transform_entry with the closure `|v| Some(v.unwrap_or(0)+5)` / `|_| None` /
+//!   `|v| v.map(|x| x+5)` / `|v| if v.is_some() { None } else { Some(5) }` (insert, replace, remove, no change) | F(a,b) followed_by | A(a,b) and_then | Q[a,b,..] Sequentially |
 //!   L(a) R(a) Either | N / O(a) Option.discard | ! fail | $ stop | Z(a) suspend
 //! Every modifying primitive is preceded by an effect recording the intent (`ws0=5`, `wu0.1=5`, `wr0.1`, `wx0`, `w!`,
 //! `w$`) so that the monitor can decide the property on the trace alone.
 //!
 //! Ops: `agent <14 programs>` | `cmd <prog>` | `vset l n` | `mupd m k n` | `mrem m k` | `mclr m` | `burst a;b;..` | `stop`
+//!      `mdrop m n` | `mtake m n`  the map-lane commands `@drop(n)` / `@take(n)` of the remote (`MapLaneDropOrTake`)
+//! Map keys are numbers below 100 (generated: 1, 2, 10 — key order 1 < 2 < 10, text order "1" < "10" < "2").
 //!      `vsync l` | `msync m`  a sync request of the remote for the lane (no handler may run: `ValueLaneSync` /
 //!                             `MapLaneSync` report `Modification::no_trigger`)
 //!      `agentd <cap> <14 programs>`  the same agent run through the public `Agent::run` with the HARNESS as the
@@ -67,6 +71,8 @@ enum H {
     RemRaw(usize, i64),
     ClrRaw(usize),
     MGetLog(usize, i64),
+    XfRaw(usize, i64, Xf),
+    WithLog(usize, i64),
     Fby(Box<H>, Box<H>),
     AndThen(Box<H>, Box<H>),
     Seq(Vec<H>),
@@ -77,6 +83,40 @@ enum H {
     FailRaw,
     StopRaw,
     Suspend(Box<H>),
+}
+
+/// The closures given to `transform_entry`.
+#[derive(Clone, Copy, Debug, PartialEq)]
+enum Xf {
+    Inc(i64),
+    Del,
+    Bump(i64),
+    Flip(i64),
+}
+
+impl Xf {
+    fn app(self, v: Option<i64>) -> Option<i64> {
+        match self {
+            Xf::Inc(d) => Some(v.unwrap_or(0) + d),
+            Xf::Del => None,
+            Xf::Bump(d) => v.map(|x| x + d),
+            Xf::Flip(n) => {
+                if v.is_some() {
+                    None
+                } else {
+                    Some(n)
+                }
+            }
+        }
+    }
+    fn text(self) -> String {
+        match self {
+            Xf::Inc(d) => format!("i{}", d),
+            Xf::Del => "d".into(),
+            Xf::Bump(d) => format!("b{}", d),
+            Xf::Flip(n) => format!("f{}", n),
+        }
+    }
 }
 
 fn fby(a: H, b: H) -> H {
@@ -119,6 +159,10 @@ impl<'a> P<'a> {
     }
     fn ml(&mut self) -> Option<usize> {
         self.digit().filter(|m| *m < NM)
+    }
+    /// A map key: a decimal number below 100.
+    fn key(&mut self) -> Option<i64> {
+        self.nat().filter(|k| *k < 100)
     }
     fn nat(&mut self) -> Option<i64> {
         let mut n: i64 = 0;
@@ -175,7 +219,7 @@ impl<'a> P<'a> {
             b'u' => {
                 let m = self.ml()?;
                 self.eat(b'.')?;
-                let k = self.digit()? as i64;
+                let k = self.key()?;
                 self.eat(b'=')?;
                 let n = self.int()?;
                 Some(fby(H::Emit(format!("wu{}.{}={}", m, k, n)), H::UpdRaw(m, k, n)))
@@ -183,7 +227,7 @@ impl<'a> P<'a> {
             b'r' => {
                 let m = self.ml()?;
                 self.eat(b'.')?;
-                let k = self.digit()? as i64;
+                let k = self.key()?;
                 Some(fby(H::Emit(format!("wr{}.{}", m, k)), H::RemRaw(m, k)))
             }
             b'x' => {
@@ -193,8 +237,39 @@ impl<'a> P<'a> {
             b'q' => {
                 let m = self.ml()?;
                 self.eat(b'.')?;
-                let k = self.digit()? as i64;
+                let k = self.key()?;
                 Some(H::MGetLog(m, k))
+            }
+            b't' => {
+                let m = self.ml()?;
+                self.eat(b'.')?;
+                let k = self.key()?;
+                let x = match self.peek()? {
+                    b'i' => {
+                        self.i += 1;
+                        Xf::Inc(self.int()?)
+                    }
+                    b'd' => {
+                        self.i += 1;
+                        Xf::Del
+                    }
+                    b'b' => {
+                        self.i += 1;
+                        Xf::Bump(self.int()?)
+                    }
+                    b'f' => {
+                        self.i += 1;
+                        Xf::Flip(self.int()?)
+                    }
+                    _ => return None,
+                };
+                Some(fby(H::Emit(format!("wt{}.{}{}", m, k, x.text())), H::XfRaw(m, k, x)))
+            }
+            b'y' => {
+                let m = self.ml()?;
+                self.eat(b'.')?;
+                let k = self.key()?;
+                Some(H::WithLog(m, k))
             }
             b'F' | b'A' => {
                 self.eat(b'(')?;
@@ -252,6 +327,7 @@ fn parse_h(s: &str) -> Option<H> {
 
 const NV: usize = 3;
 const NM: usize = 2;
+const KEYS: [u64; 3] = [1, 2, 10];
 
 /// Field names (used by the lifecycle and by `lifecycle_item_ids`) and external names (used by the runtime and by
 /// `external_item_ids`) differ for four of the five lanes.
@@ -364,6 +440,19 @@ impl Lc {
                 ctx.get_entry(mlane(m), k)
                     .and_then(move |v: Option<i64>| {
                         ctx.effect(move || log.lock().unwrap().push(format!("q{}.{}:{}", m, k, fmt_opt(v))))
+                    })
+                    .boxed_local()
+            }
+            H::XfRaw(m, k, x) => {
+                let x = *x;
+                ctx.transform_entry(mlane(*m), *k, move |v: Option<&i64>| x.app(v.copied())).boxed_local()
+            }
+            H::WithLog(m, k) => {
+                let (m, k) = (*m, *k);
+                let log = self.log.clone();
+                ctx.with_entry(mlane(m), k, |v: Option<&i64>| v.copied())
+                    .and_then(move |v: Option<i64>| {
+                        ctx.effect(move || log.lock().unwrap().push(format!("y{}.{}:{}", m, k, fmt_opt(v))))
                     })
                     .boxed_local()
             }
@@ -520,6 +609,8 @@ enum Req {
     MUpd(usize, i64, i64),
     MRem(usize, i64),
     MClr(usize),
+    MDrop(usize, u64),
+    MTake(usize, u64),
     VSync(usize),
     MSync(usize),
 }
@@ -745,6 +836,8 @@ impl Rig {
                         Req::MUpd(m, k, n) => cmd(remote, MNAMES[*m], format!("@update(key:{}) {}", k, n)),
                         Req::MRem(m, k) => cmd(remote, MNAMES[*m], format!("@remove(key:{})", k)),
                         Req::MClr(m) => cmd(remote, MNAMES[*m], "@clear".into()),
+                        Req::MDrop(m, n) => cmd(remote, MNAMES[*m], format!("@drop({})", n)),
+                        Req::MTake(m, n) => cmd(remote, MNAMES[*m], format!("@take({})", n)),
                         Req::VSync(l) => RequestMessage::sync(remote, RelativeAddress::new(NODE, VNAMES[*l])),
                         Req::MSync(m) => RequestMessage::sync(remote, RelativeAddress::new(NODE, MNAMES[*m])),
                     };
@@ -784,6 +877,16 @@ impl Rig {
                     Req::MClr(m) => {
                         if let Some(w) = d.mtx.get_mut(MNAMES[*m]) {
                             let _ = w.send(LaneRequest::Command(MapMessage::<i64, i64>::Clear)).await;
+                        }
+                    }
+                    Req::MDrop(m, n) => {
+                        if let Some(w) = d.mtx.get_mut(MNAMES[*m]) {
+                            let _ = w.send(LaneRequest::Command(MapMessage::<i64, i64>::Drop(*n))).await;
+                        }
+                    }
+                    Req::MTake(m, n) => {
+                        if let Some(w) = d.mtx.get_mut(MNAMES[*m]) {
+                            let _ = w.send(LaneRequest::Command(MapMessage::<i64, i64>::Take(*n))).await;
                         }
                     }
                     Req::MSync(m) => {
@@ -914,8 +1017,10 @@ fn lane_cmd(parts: &[&str]) -> Option<Req> {
     match parts {
         ["cmd", p] => parse_h(p).map(|_| Req::Cmd(p.to_string())),
         ["vset", l, n] => Some(Req::VSet(num(l, NV as i64)? as usize, int(n)?)),
-        ["mupd", m, k, n] => Some(Req::MUpd(num(m, NM as i64)? as usize, num(k, 10)?, int(n)?)),
-        ["mrem", m, k] => Some(Req::MRem(num(m, NM as i64)? as usize, num(k, 10)?)),
+        ["mupd", m, k, n] => Some(Req::MUpd(num(m, NM as i64)? as usize, num(k, 100)?, int(n)?)),
+        ["mrem", m, k] => Some(Req::MRem(num(m, NM as i64)? as usize, num(k, 100)?)),
+        ["mdrop", m, n] => Some(Req::MDrop(num(m, NM as i64)? as usize, num(n, 100)? as u64)),
+        ["mtake", m, n] => Some(Req::MTake(num(m, NM as i64)? as usize, num(n, 100)? as u64)),
         ["mclr", m] => Some(Req::MClr(num(m, NM as i64)? as usize)),
         ["vsync", l] => Some(Req::VSync(num(l, NV as i64)? as usize)),
         ["msync", m] => Some(Req::MSync(num(m, NM as i64)? as usize)),
@@ -1083,12 +1188,14 @@ impl Gen {
 
     fn leaf(&mut self, vmin: usize, mmin: usize, _top: bool) -> String {
         let val = self.rng.range(0, 40) as i64 - 10;
-        let key = self.rng.below(3);
+        // key order 1 < 2 < 10, text order "1" < "10" < "2"
+        let key = *self.rng.pick(&KEYS);
         for _ in 0..8 {
             match self.rng.below(100) {
                 0..=17 => return format!("e{}", self.rng.below(10)),
                 18..=27 => return format!("g{}", self.rng.below(NV as u64)),
-                28..=35 => return format!("q{}.{}", self.rng.below(NM as u64), key),
+                28..=33 => return format!("q{}.{}", self.rng.below(NM as u64), key),
+                34..=35 => return format!("y{}.{}", self.rng.below(NM as u64), key),
                 36..=55 if vmin < NV => return format!("s{}={}", self.rng.range(vmin as u64, NV as u64 - 1), val),
                 56..=64 if vmin < NV => {
                     let k = self.rng.range(0, 6) as i64 - 3;
@@ -1100,7 +1207,16 @@ impl Gen {
                         k.abs()
                     );
                 }
-                65..=79 if mmin < NM => return format!("u{}.{}={}", self.rng.range(mmin as u64, NM as u64 - 1), key, val),
+                65..=73 if mmin < NM => return format!("u{}.{}={}", self.rng.range(mmin as u64, NM as u64 - 1), key, val),
+                74..=79 if mmin < NM => {
+                    let x = match self.rng.below(4) {
+                        0 => Xf::Inc(val),
+                        1 => Xf::Del,
+                        2 => Xf::Bump(val),
+                        _ => Xf::Flip(val),
+                    };
+                    return format!("t{}.{}{}", self.rng.range(mmin as u64, NM as u64 - 1), key, x.text());
+                }
                 80..=87 if mmin < NM => return format!("r{}.{}", self.rng.range(mmin as u64, NM as u64 - 1), key),
                 88..=91 if mmin < NM => return format!("x{}", self.rng.range(mmin as u64, NM as u64 - 1)),
                 92..=93 => return "N".into(),
@@ -1156,7 +1272,7 @@ impl Gen {
         if self.rng.chance(1, 60) {
             // malformed program text / out-of-range lanes: rejected by both sides before anything runs
             return (*self.rng.pick(&[
-                "cmd F(e1", "cmd s7=1", "cmd Q[e1,]", "cmd u2.1=5", "vset 3 1", "mupd 0 x 1", "cmd", "vsync 3", "msync 2",
+                "cmd F(e1", "cmd s7=1", "cmd Q[e1,]", "cmd u2.1=5", "vset 3 1", "mupd 0 x 1", "cmd", "vsync 3", "msync 2", "mdrop 2 1", "mtake 0 x", "cmd t0.1", "cmd t0.100i1",
                 "rd v3 1", "rd all x",
             ]))
             .to_string();
@@ -1164,8 +1280,14 @@ impl Gen {
         match self.rng.below(100) {
             0..=63 => format!("cmd {}", self.h(depth, 0, 0, true)),
             64..=73 => format!("vset {} {}", self.rng.below(NV as u64), self.rng.range(0, 30)),
-            74..=83 => format!("mupd {} {} {}", self.rng.below(NM as u64), self.rng.below(3), self.rng.range(0, 30)),
-            84..=89 => format!("mrem {} {}", self.rng.below(NM as u64), self.rng.below(3)),
+            74..=82 => format!("mupd {} {} {}", self.rng.below(NM as u64), self.rng.pick(&KEYS), self.rng.range(0, 30)),
+            83..=86 => format!("mrem {} {}", self.rng.below(NM as u64), self.rng.pick(&KEYS)),
+            87..=89 => format!(
+                "{} {} {}",
+                if self.rng.chance(1, 2) { "mdrop" } else { "mtake" },
+                self.rng.below(NM as u64),
+                self.rng.below(4)
+            ),
             90..=92 => format!("mclr {}", self.rng.below(NM as u64)),
             93..=96 => format!("vsync {}", self.rng.below(NV as u64)),
             _ => format!("msync {}", self.rng.below(NM as u64)),
@@ -1197,7 +1319,7 @@ impl Gen {
                 match g.rng.below(100) {
                     0..=29 => format!("vset {} {}", vl, g.rng.range(0, 30)),
                     30..=49 => format!("vsync {}", vl),
-                    50..=61 => format!("mupd {} {} {}", ml, g.rng.below(3), g.rng.range(0, 30)),
+                    50..=61 => format!("mupd {} {} {}", ml, g.rng.pick(&KEYS), g.rng.range(0, 30)),
                     62..=66 => format!("mclr {}", ml),
                     67..=74 => format!("msync {}", ml),
                     _ => {
@@ -1216,7 +1338,13 @@ impl Gen {
             } else {
                 match self.rng.below(100) {
                     0..=54 => ops.push(one(self)),
-                    55..=59 => ops.push(format!("mrem {} {}", ml, self.rng.below(3))),
+                    55..=57 => ops.push(format!("mrem {} {}", ml, self.rng.pick(&KEYS))),
+                    58..=59 => ops.push(format!(
+                        "{} {} {}",
+                        if self.rng.chance(1, 2) { "mdrop" } else { "mtake" },
+                        ml,
+                        self.rng.below(4)
+                    )),
                     60..=81 => ops.push(self.rd(hot_v, hot_m)),
                     _ => {
                         // an update being written, then a sync request and another update, then the runtime reads
@@ -1268,7 +1396,12 @@ fn main() {
                             let items: Vec<String> = (0..k)
                                 .map(|_| loop {
                                     let o = g.op(depth.min(3));
-                                    if !o.starts_with("mrem") && !o.starts_with("rd") {
+                                    // (the same holds for a take/drop that removes nothing)
+                                    if !o.starts_with("mrem")
+                                        && !o.starts_with("rd")
+                                        && !o.starts_with("mdrop")
+                                        && !o.starts_with("mtake")
+                                    {
                                         break o.replace(' ', ":");
                                     }
                                 })
@@ -1278,6 +1411,20 @@ fn main() {
                             ops.push(g.op(depth));
                         }
                     }
+                }
+                if !burst && g.rng.chance(1, 5) {
+                    // a map with several entries, then a take/drop: removals (and their handlers) in key order
+                    let m = g.rng.below(NM as u64);
+                    let mut ks = KEYS.to_vec();
+                    for i in (1..ks.len()).rev() {
+                        ks.swap(i, g.rng.below(i as u64 + 1) as usize);
+                    }
+                    let cnt = g.rng.range(2, 3) as usize;
+                    for k in ks.iter().take(cnt) {
+                        ops.push(format!("mupd {} {} {}", m, k, g.rng.range(0, 30)));
+                    }
+                    let kind = if g.rng.chance(1, 2) { "mdrop" } else { "mtake" };
+                    ops.push(format!("{} {} {}", kind, m, g.rng.below(3)));
                 }
                 if g.rng.chance(3, 4) {
                     ops.push("stop".into());
